@@ -75,45 +75,50 @@ Definition new_sorter (c : cfg) : sorter :=
 Definition upd (s : sorter) nm rb ra n2b n2a n2v ord : sorter :=
   mkSorter nm rb ra n2b n2a n2v ord (default_before s) (default_after s) (first s) (last s).
 
-Definition get_list (k : node) (d : list (node * list node)) : list node :=
-  match aget k d with Some l => l | None => [] end.
 Definition nonempty {A} (l : list A) : bool := match l with [] => false | _ => true end.
 
 (* def remove(self, name); None = ValueError from names.remove(name) *)
 Definition remove (name : node) (s : sorter) : option sorter :=
   if mem_text name (names s) then
-    let after := get_list name (name2after s) in          (* name2after.pop(name, []) *)
-    let before := get_list name (name2before s) in
-    let ra := if nonempty after then remove_first name (req_after s) else req_after s in
-    let ord1 := fold_left (fun o u => remove_arc (u, name) o) after (order s) in
-    let rb := if nonempty before then remove_first name (req_before s) else req_before s in
-    let ord2 := fold_left (fun o u => remove_arc (name, u) o) before ord1 in
+    (* after = self.name2after.pop(name, None); if after is not None: ... *)
+    let '(ra, ord1) :=
+      match aget name (name2after s) with
+      | Some after => (remove_first name (req_after s),
+                       fold_left (fun o u => remove_arc (u, name) o) after (order s))
+      | None => (req_after s, order s)
+      end in
+    let '(rb, ord2) :=
+      match aget name (name2before s) with
+      | Some before => (remove_first name (req_before s),
+                        fold_left (fun o u => remove_arc (name, u) o) before ord1)
+      | None => (req_before s, ord1)
+      end in
     Some (upd s (remove_first name (names s)) rb ra
               (adel name (name2before s)) (adel name (name2after s)) (adel name (name2val s)) ord2)
   else None.
+
+Definition opt_list (o : option (list node)) : list node := match o with Some l => l | None => [] end.
+
+(* the tail of add(): after/before already defaulted and wrapped ([None] = not given) *)
+Definition add_core (name : node) (val : N) (after before : option (list node)) (s : sorter) : sorter :=
+  upd s (names s ++ [name])
+      (match before with Some _ => set_add name (req_before s) | None => req_before s end)
+      (match after with Some _ => set_add name (req_after s) | None => req_after s end)
+      (match before with Some b => aset name b (name2before s) | None => name2before s end)
+      (match after with Some a => aset name a (name2after s) | None => name2after s end)
+      (aset name val (name2val s))
+      ((order s ++ map (fun u => (u, name)) (opt_list after)) ++ map (fun o => (name, o)) (opt_list before)).
 
 (* def add(self, name, val, after=None, before=None) *)
 Definition add (name : node) (val : N) (after before : hint) (s : sorter) : sorter :=
   let s := if mem_text name (names s)
            then match remove name s with Some s' => s' | None => s end else s in
-  let nm := names s ++ [name] in
-  let n2v := aset name val (name2val s) in
   let '(after, before) :=
     match after, before with
     | HNone, HNone => (default_after s, default_before s)
     | _, _ => (after, before)
     end in
-  let '(n2a, ord, ra) :=
-    match norm_hint after with
-    | Some a => (aset name a (name2after s), order s ++ map (fun u => (u, name)) a, set_add name (req_after s))
-    | None => (name2after s, order s, req_after s)
-    end in
-  let '(n2b, ord, rb) :=
-    match norm_hint before with
-    | Some b => (aset name b (name2before s), ord ++ map (fun o => (name, o)) b, set_add name (req_before s))
-    | None => (name2before s, ord, req_before s)
-    end in
-  upd s nm rb ra n2b n2a n2v ord.
+  add_core name val (norm_hint after) (norm_hint before) s.
 
 (* ---- sorted() *)
 Definition gentry := (Z * list node)%type.          (* graph[node] = [in-degree, child, child, ...] *)
@@ -245,8 +250,6 @@ Definition cfg_first (c : cfg) : node := let '(_, _, f, _) := c in f.
 Definition cfg_last (c : cfg) : node := let '(_, _, _, l) := c in l.
 Definition dnames (ds : list decl) : list node := map dname ds.
 Definition spec_nodes (c : cfg) (ds : list decl) : list node := cfg_first c :: cfg_last c :: dnames ds.
-Definition opt_list (o : option (list node)) : list node := match o with Some l => l | None => [] end.
-
 Definition decl_arcs (d : decl) : list arc :=
   map (fun u => (u, dname d)) (opt_list (dafter d)) ++ map (fun o => (dname d, o)) (opt_list (dbefore d)).
 (* every constraint whose both ends are present, plus first-before-last *)
